@@ -47,6 +47,9 @@ func GenTxOps(t *rapid.T, o TxGenOpts) []Op {
 			} else {
 				op.Key = rapid.IntRange(0, 5).Draw(t, "key")
 			}
+			if (k == "get" || k == "getr") && rapid.IntRange(0, 9).Draw(t, "emptyKey") == 0 {
+				op.Key = -1 // the empty key: never stored, but the transaction is still looked up first
+			}
 			if k == "set" {
 				op.Len = GenLen(t, o.BigContent)
 				if rapid.IntRange(0, 5).Draw(t, "viaSel") == 0 {
